@@ -3,7 +3,7 @@ import ast
 
 from ..srcmodel import AnalysisError, site
 from ..automat_x import Program, output_call_names
-from ..astutil import dotted, const, NOCONST, is_self_attr
+from ..astutil import dotted, const, NOCONST, is_self_attr, params
 from ..tablerules import colouring, row_calls
 from ..cfg import build
 from ..effects import class_writers, is_empty_ctor
@@ -221,7 +221,40 @@ def r5_rows(prog, rep):
                       key="C09.R5:Mailbox[%s].add_message:queue" % r.src)
 
 
+def r7_dequeue(tree, rep, rule="C09.R7"):
+    """an echo retires exactly the message it echoes: every removal from Mailbox._pending_outbound is pop(<the row's phase>[, default]) /
+    del [..phase..] in a straight line - no loop, no clear, no other key (the server replays old echoes on every re-open: anything wider
+    wipes messages that were never delivered)"""
+    from ..automat_x import Program
+    M = Program(tree).machine("Mailbox")
+    own, foreign = class_writers(tree, "Mailbox", "_pending_outbound")
+    rem = [w for w in own + foreign if w.kind in ("call:pop", "call:popitem", "call:clear", "delitem", "call:remove") or (w.kind == "assign" and w.fn not in ("__init__", "__attrs_post_init__"))]
+    if not rem:
+        raise AnalysisError("Mailbox._pending_outbound is never retired")
+    for w in rem:
+        fn = M.func(w.fn)
+        ps = params(fn) if fn is not None else []
+        ok = w in own and fn is not None
+        if ok and w.kind == "call:pop":
+            ok = bool(w.value.args) and isinstance(w.value.args[0], ast.Name) and w.value.args[0].id in ps and w.value.args[0].id == "phase"
+        elif ok and w.kind == "delitem":
+            ok = True
+        else:
+            ok = False
+        if ok:
+            anc = getattr(w.node, "_parent", None)
+            while anc is not None and anc is not fn:
+                if isinstance(anc, (ast.For, ast.While, ast.ListComp, ast.GeneratorExp)):
+                    ok = False
+                anc = getattr(anc, "_parent", None)
+        rep.check(rule, "Mailbox.%s retires exactly the echoed phase from _pending_outbound (one pop(phase), no loop)" % w.fn, ok, w.site,
+                  key="%s:_pending_outbound:retire:%s" % (rule, w.brief()),
+                  what="Mailbox.%s removes more than the echoed message from the retransmission table (%s): a replayed old echo wipes messages the "
+                       "server never got" % (w.fn, w.kind))
+
+
 def run(tree, rep, tier):
+    r7_dequeue(tree, rep)
     from .. import sharedstate
     sharedstate.check(tree, rep, "C09.R0")
     prog = Program(tree)
